@@ -34,14 +34,20 @@
 (*            sector offset table, counted in csize  (library writer)       *)
 (*   oneblock a multi-sector file without COMPRESS/IMPLODE is decrypted as  *)
 (*            ONE cipher block with the base key      (library reader)      *)
+(*   crclayout (reader side of the model only) sector checksums as the      *)
+(*            library's builder stores them: offset table of n+1 entries,   *)
+(*            n ADLER32 values of the UNCOMPRESSED sectors right after it,  *)
+(*            not counted in csize (standard: n+2 entries, the checksums    *)
+(*            form one more sector after the data, ADLER32 of each sector   *)
+(*            as stored before encryption, counted in csize)                *)
 (***************************************************************************)
 EXTENDS Integers, Sequences, SequencesExt, FiniteSets, MpqCrypto
 
 CONSTANT SectorBase          \* 512 in the format ("512 * 2^block_size_shift"); MC uses 8
 
-Std  == [tail |-> FALSE, pathkey |-> FALSE, rawtable |-> FALSE, oneblock |-> FALSE]
-LibW == [tail |-> TRUE,  pathkey |-> TRUE,  rawtable |-> TRUE,  oneblock |-> FALSE]   \* library as writer
-LibR == [tail |-> TRUE,  pathkey |-> TRUE,  rawtable |-> FALSE, oneblock |-> TRUE]    \* library as reader
+Std  == [tail |-> FALSE, pathkey |-> FALSE, rawtable |-> FALSE, oneblock |-> FALSE, crclayout |-> FALSE]
+LibW == [tail |-> TRUE,  pathkey |-> TRUE,  rawtable |-> TRUE,  oneblock |-> FALSE, crclayout |-> TRUE]    \* library as writer
+LibR == [tail |-> TRUE,  pathkey |-> TRUE,  rawtable |-> FALSE, oneblock |-> TRUE,  crclayout |-> FALSE]   \* library as reader
 
 ---------------------------------------------------------------------------
 (* Little-endian fields.  `off` is a 0-based byte offset into bs.          *)
@@ -59,6 +65,9 @@ CeilDiv(a, b) == (a + b - 1) \div b
 Min2(a, b) == IF a < b THEN a ELSE b
 IsPow2(v) == \E e \in 0..22 : v = 2^e
 ConcatAll(seqs) == FoldLeft(LAMBDA acc, sq : acc \o sq, <<>>, seqs)
+\* ADLER32 as a word <<b, a>>
+Adler32(bs) == LET st == FoldLeft(LAMBDA acc, ch : LET aa == (acc[1] + ch) % 65521 IN <<aa, (acc[2] + aa) % 65521>>, <<1, 0>>, bs)
+               IN  <<st[2], st[1]>>
 
 ---------------------------------------------------------------------------
 (* Block flags (mpq.md "Block Table Entry") as words.                      *)
@@ -96,9 +105,18 @@ StdCryptBytes(bs, key, Blk(_, _)) ==
   LET nw == Len(bs) \div 4
   IN  IF nw = 0 THEN bs
       ELSE BytesOf(Blk(WordsOf(SubSeq(bs, 1, 4 * nw)), key)) \o SubSeq(bs, 4 * nw + 1, Len(bs))
+\* named deviation `tail` (defined here, independently of MpqCrypto!EncryptBytes, which models whatever the
+\* library's byte wrappers currently do): the trailing len mod 4 bytes are zero-padded to a dword, processed
+\* as a one-word block with key + (number of full dwords), and only len mod 4 bytes are written back
+TailCryptBytes(bs, key, Blk(_, _)) ==
+  LET nw == Len(bs) \div 4
+      tl == SubSeq(bs, 4 * nw + 1, Len(bs))
+      full == IF nw = 0 THEN <<>> ELSE BytesOf(Blk(WordsOf(SubSeq(bs, 1, 4 * nw)), key))
+  IN  IF Len(tl) = 0 THEN full
+      ELSE full \o SubSeq(BytesOf(Blk(WordsOf(tl \o Zeros(4 - Len(tl))), Add32n(key, nw))), 1, Len(tl))
 \* unit = single-unit file body or one sector
-UnitEncrypt(bs, key, d) == IF d.tail THEN EncryptBytes(bs, key) ELSE StdCryptBytes(bs, key, StdEncWords)
-UnitDecrypt(bs, key, d) == IF d.tail THEN DecryptBytes(bs, key) ELSE StdCryptBytes(bs, key, StdDecWords)
+UnitEncrypt(bs, key, d) == IF d.tail THEN TailCryptBytes(bs, key, StdEncWords) ELSE StdCryptBytes(bs, key, StdEncWords)
+UnitDecrypt(bs, key, d) == IF d.tail THEN TailCryptBytes(bs, key, StdDecWords) ELSE StdCryptBytes(bs, key, StdDecWords)
 
 \* file key: hash of the plain name; FIX_KEY: (key + block offset) XOR file size
 KeyName(name, d) == IF d.pathkey THEN name ELSE BaseName(name)
@@ -109,11 +127,21 @@ FileKeyOf(name, posW, fsizeW, flags, d) ==
 ---------------------------------------------------------------------------
 (*                               READER                                    *)
 ---------------------------------------------------------------------------
-\* The header is searched at 512-byte aligned offsets (mpq.md "Header Search").
+\* The header is searched at 512-byte aligned offsets (mpq.md "Header Search"); a user data header
+\* 'MPQ\x1B' {user_data_max_size, archive_header_offset, user_data_header_size} found there points to the
+\* MPQ header at (its own offset + archive_header_offset).  All table/file offsets are relative to the MPQ header.
+UserMagic == <<77, 80, 81, 27>>
 HeaderAt(bs, base) == base + 32 <= Len(bs) /\ SubSeq(bs, base + 1, base + 4) = Magic
+HeaderVia(bs, off) ==
+  IF HeaderAt(bs, off) THEN off
+  ELSE IF off + 16 <= Len(bs) /\ SubSeq(bs, off + 1, off + 4) = UserMagic
+       THEN LET ho == NatOf(U32At(bs, off + 8)) IN IF ho >= 0 /\ HeaderAt(bs, off + ho) THEN off + ho ELSE -1
+       ELSE -1
 FindHeader(bs) ==
-  LET cands == {c \in 0..(Len(bs) \div 512) : HeaderAt(bs, 512 * c)}
-  IN  IF cands = {} THEN -1 ELSE 512 * (CHOOSE c \in cands : \A c2 \in cands : c <= c2)
+  LET cands == {c \in 0..(Len(bs) \div 512) : HeaderVia(bs, 512 * c) >= 0}
+  IN  IF cands = {} THEN -1 ELSE HeaderVia(bs, 512 * (CHOOSE c \in cands : \A c2 \in cands : c <= c2))
+UserDataPrefix(len) ==     \* a user data header followed by filler, MPQ header at offset len
+  UserMagic \o LE32n(len - 16) \o LE32n(len) \o LE32n(16) \o [pi \in 1..(len - 16) |-> (pi * 11) % 249]
 
 ParseHeader(bs, base) ==
   LET ver == U16At(bs, base + 12)
@@ -175,20 +203,25 @@ BlockTableOf(bs, base, hn) ==
          [ pos |-> ws[4 * bi + 1], csize |-> ws[4 * bi + 2], fsize |-> ws[4 * bi + 3], flags |-> ws[4 * bi + 4] ]]
 
 \* "File Search Algorithm" (mpq.md): start at TABLE_OFFSET hash mod size, linear probing, stop at a
-\* never-used entry; deleted entries are skipped.  Result: slot index or -1.  Neutral locale.
-HashLookup(ht, cnt, name) ==
+\* never-used entry; deleted entries are skipped.  Several entries may carry the same name with different
+\* locales: the entry of the requested locale wins, else the neutral (0) one, else the first.  Slot or -1.
+HashLookupL(ht, cnt, name, locale) ==
   LET ha   == HashString(name, NAME_A)
       hb   == HashString(name, NAME_B)
       home == NatOf(And32(HashString(name, TABLE_OFFSET), WFromNat(cnt - 1)))
       probe(acc, pk) ==
-        IF acc.st # "probing" THEN acc
+        IF acc.stop THEN acc
         ELSE LET slot == (home + pk) % cnt
                  en   == ht[slot]
-             IN  IF en.blk = HASH_EMPTY THEN [st |-> "absent", slot |-> -1]
+             IN  IF en.blk = HASH_EMPTY THEN [acc EXCEPT !.stop = TRUE]
                  ELSE IF en.blk # HASH_DELETED /\ en.ha = ha /\ en.hb = hb
-                      THEN [st |-> "found", slot |-> slot]
+                      THEN [acc EXCEPT !.exact   = IF acc.exact < 0 /\ en.locale = locale THEN slot ELSE acc.exact,
+                                       !.neutral = IF acc.neutral < 0 /\ en.locale = 0 THEN slot ELSE acc.neutral,
+                                       !.first   = IF acc.first < 0 THEN slot ELSE acc.first]
                       ELSE acc
-  IN  FoldLeft(probe, [st |-> "probing", slot |-> -1], [pk \in 1..cnt |-> pk - 1]).slot
+      res == FoldLeft(probe, [stop |-> FALSE, exact |-> -1, neutral |-> -1, first |-> -1], [pk \in 1..cnt |-> pk - 1])
+  IN  IF res.exact >= 0 THEN res.exact ELSE IF res.neutral >= 0 THEN res.neutral ELSE res.first
+HashLookup(ht, cnt, name) == HashLookupL(ht, cnt, name, 0)
 
 \* one decoded sector: method byte (or -1 = stored raw), payload, expected plain length
 Sector(plain, want, maybeCompressed) ==
@@ -197,7 +230,8 @@ Sector(plain, want, maybeCompressed) ==
   ELSE [m |-> -1, p |-> plain, want |-> want]
 
 NoFile(res) == [res |-> res, flags |-> WZero, pos |-> -1, csize |-> -1, fsize |-> -1, blk |-> -1,
-                single |-> FALSE, cflag |-> FALSE, enc |-> "plain", sectors |-> <<>>, stored |-> <<>>]
+                single |-> FALSE, cflag |-> FALSE, enc |-> "plain", sectors |-> <<>>, stored |-> <<>>,
+                locale |-> -1, platform |-> -1, crc |-> "none"]
 
 \* Decode the file of block entry `be` (looked up under `name`) of the archive at `base`.
 \* First a *plan* is derived from the block entry (which byte ranges are cipher units, with which key
@@ -213,22 +247,32 @@ ReadBlock(bs, base, ssize, be, blk, name, d) ==
       sngl  == Has(fl, F_SINGLE)
       cfl   == Has(fl, F_COMPRESS)
       nsec  == CeilDiv(fsize, ssize)
+      crcf  == Has(fl, F_SECTORCRC) /\ ~sngl                     \* sector checksums are ignored for single-unit files
+      stdcrc == crcf /\ ~d.crclayout
+      libcrc == crcf /\ d.crclayout
+      ntab  == IF stdcrc THEN nsec + 2 ELSE nsec + 1             \* entries of the sector offset table
       want(si) == Min2(ssize, fsize - (si - 1) * ssize)          \* si = 1..nsec
       inside(lo, hi) == lo >= 0 /\ lo <= hi /\ base + hi <= Len(bs)     \* byte range [lo,hi) of the archive
       slice(lo, hi)  == SubSeq(bs, base + lo + 1, base + hi)
       Plan(res, units, split) == [res |-> res, units |-> units, split |-> split]
       Unit(lo, hi, ko, wantl, mc) == [lo |-> lo, hi |-> hi, ko |-> ko, want |-> wantl, mc |-> mc]
       \* sector offset table: nsec+1 dwords relative to the file start, encrypted with key-1
-      offw  == LET raww == WordsOf(slice(pos, pos + 4 * (nsec + 1)))
+      offw  == LET raww == WordsOf(slice(pos, pos + 4 * ntab))
                IN  IF encd THEN StdDecWords(raww, Sub32(key, <<0, 1>>)) ELSE raww
-      off   == [oi \in 1..(nsec + 1) |-> NatOf(offw[oi])]
-      okoff == /\ off[1] = 4 * (nsec + 1)
+      off   == [oi \in 1..ntab |-> NatOf(offw[oi])]
+      okoff == /\ off[1] = (IF libcrc THEN 4 * (nsec + 1) + 4 * nsec ELSE 4 * ntab)
                /\ \A oi \in 1..nsec : off[oi] >= 0 /\ off[oi] <= off[oi + 1] /\ off[oi + 1] - off[oi] <= want(oi)
-               /\ off[nsec + 1] = csize
-               /\ inside(pos, pos + csize)
+               /\ (IF stdcrc THEN off[nsec + 1] <= off[nsec + 2] /\ off[nsec + 2] = csize
+                   ELSE IF libcrc THEN off[nsec + 1] = csize + 4 * nsec
+                   ELSE off[nsec + 1] = csize)
+               /\ inside(pos, pos + off[ntab])
+      \* the stored checksums (raw table of nsec dwords), or <<>> if absent / stored compressed
+      crcw  == IF stdcrc /\ off[nsec + 2] - off[nsec + 1] = 4 * nsec THEN WordsOf(slice(pos + off[nsec + 1], pos + off[nsec + 2]))
+               ELSE IF libcrc THEN WordsOf(slice(pos + 4 * (nsec + 1), pos + 4 * (nsec + 1) + 4 * nsec))
+               ELSE <<>>
       plan ==
         IF pos < 0 \/ csize < 0 \/ fsize < 0 \/ ~Has(fl, F_EXISTS) THEN Plan("malformed:entry", <<>>, FALSE)
-        ELSE IF Has(fl, F_IMPLODE) \/ Has(fl, F_PATCH) \/ Has(fl, F_SECTORCRC) THEN Plan("unsupported", <<>>, FALSE)
+        ELSE IF Has(fl, F_IMPLODE) \/ Has(fl, F_PATCH) THEN Plan("unsupported", <<>>, FALSE)
         ELSE IF fsize = 0 THEN Plan("ok", <<>>, FALSE)
         ELSE IF sngl THEN
                \* one unit; compressed iff stored smaller than the file
@@ -239,7 +283,7 @@ ReadBlock(bs, base, ssize, be, blk, name, d) ==
                IF csize # fsize \/ ~inside(pos, pos + fsize) THEN Plan("malformed:rawsize", <<>>, FALSE)
                ELSE IF d.oneblock THEN Plan("ok", << Unit(pos, pos + fsize, 0, fsize, FALSE) >>, TRUE)
                ELSE Plan("ok", [si \in 1..nsec |-> Unit(pos + (si-1)*ssize, pos + (si-1)*ssize + want(si), si - 1, want(si), FALSE)], FALSE)
-        ELSE IF ~inside(pos, pos + 4 * (nsec + 1)) THEN Plan("malformed:table", <<>>, FALSE)
+        ELSE IF ~inside(pos, pos + 4 * ntab) THEN Plan("malformed:table", <<>>, FALSE)
         ELSE IF ~okoff THEN Plan("malformed:offsets", <<>>, FALSE)
         ELSE Plan("ok", [si \in 1..nsec |-> Unit(pos + off[si], pos + off[si + 1], si - 1, want(si), cfl)], FALSE)
       plains == [ui \in 1..Len(plan.units) |->
@@ -250,10 +294,20 @@ ReadBlock(bs, base, ssize, be, blk, name, d) ==
                 ELSE [ui \in 1..Len(plan.units) |-> Sector(plains[ui], plan.units[ui].want, plan.units[ui].mc)]
       stored == IF plan.split THEN [si \in 1..nsec |-> want(si)]
                 ELSE [ui \in 1..Len(plan.units) |-> plan.units[ui].hi - plan.units[ui].lo]
+      tabled == plan.res = "ok" /\ fsize > 0 /\ ~sngl /\ (cfl \/ d.rawtable)
+      \* checksum verdict: standard = ADLER32 of each sector as stored (after decryption), 0 = no checksum;
+      \* library layout = ADLER32 of the uncompressed sector (only checkable here for sectors stored raw)
+      crcres == IF ~crcf \/ ~tabled THEN "none"
+                ELSE IF crcw = <<>> THEN "unverified"
+                ELSE IF \A ui \in 1..nsec :
+                          \/ crcw[ui] = WZero
+                          \/ (libcrc /\ secs[ui].m # -1)
+                          \/ crcw[ui] = Adler32(plains[ui])
+                     THEN "ok" ELSE "bad"
   IN  [ res |-> plan.res, flags |-> fl, pos |-> pos, csize |-> csize, fsize |-> fsize, blk |-> blk,
         single |-> sngl, cflag |-> cfl,
         enc |-> IF ~encd THEN "plain" ELSE IF Has(fl, F_FIXKEY) THEN "fix" ELSE "enc",
-        sectors |-> secs, stored |-> stored ]
+        sectors |-> secs, stored |-> stored, locale |-> -1, platform |-> -1, crc |-> crcres ]
 
 \* An opened archive: header + decrypted tables (or why not)
 OpenArchive(bs) ==
@@ -271,7 +325,8 @@ RefReadFile(bs, ar, ht, bt, name, d) ==
   IN  IF slot < 0 THEN NoFile("notfound")
       ELSE LET blk == NatOf(ht[slot].blk)
            IN  IF blk < 0 \/ blk >= ar.hn.btcount THEN NoFile("malformed:blockindex")
-               ELSE ReadBlock(bs, ar.base, SectorSize(ar.hn.shift), bt[blk], blk, name, d)
+               ELSE [ReadBlock(bs, ar.base, SectorSize(ar.hn.shift), bt[blk], blk, name, d)
+                       EXCEPT !.locale = ht[slot].locale, !.platform = ht[slot].platform]
 
 \* RefRead(bytes, names, d) = [name |-> decoded file]   (names: a set of byte strings)
 RefRead(bs, names, d) ==
@@ -288,10 +343,32 @@ DevLabels(name, fi) ==
   \cup (IF fi.enc # "plain" /\ \E si \in 1..Len(fi.stored) : fi.stored[si] % 4 # 0 THEN {"tail"} ELSE {})
   \cup (IF ~fi.single /\ ~fi.cflag /\ fi.fsize > 0 THEN {"rawsector"} ELSE {})
 
+\* Explaining a rejected file: the deviations are tried in every combination (a fix of one of them in
+\* the library must not turn the files that also suffer from another one into unexplained ones).
+\* Labels: "tail", "pathkey", "rawtable" (writer side), "oneblock" (reader side).
+DialectOf(labels) == [tail |-> "tail" \in labels, pathkey |-> "pathkey" \in labels,
+                      rawtable |-> "rawtable" \in labels, oneblock |-> "oneblock" \in labels,
+                      crclayout |-> "crclayout" \in labels]
+\* non-empty subsets, smallest first (the first explaining one is the minimal explanation)
+LabelOrder == <<"crclayout", "oneblock", "pathkey", "rawtable", "tail">>
+LabelSeq(labels) == SelectSeq(LabelOrder, LAMBDA lb : lb \in labels)
+SubsetKey(sb) == 32 * Cardinality(sb) + (IF "crclayout" \in sb THEN 16 ELSE 0) + (IF "oneblock" \in sb THEN 8 ELSE 0) + (IF "pathkey" \in sb THEN 4 ELSE 0)
+                 + (IF "rawtable" \in sb THEN 2 ELSE 0) + (IF "tail" \in sb THEN 1 ELSE 0)
+SubsetSeqs(labels) == SetToSortSeq((SUBSET labels) \ {{}}, LAMBDA a, b : SubsetKey(a) < SubsetKey(b))
+\* deviations that can possibly matter for a file, from what is known without a key.
+\* side = "w": the library wrote the archive (direction 1); "r": the library reads it (direction 2)
+CandLabels(name, enc, single, cflag, crcflag, fsize, csize, nsec, side) ==
+  (IF side = "w" /\ crcflag /\ ~single /\ fsize > 0 THEN {"crclayout"} ELSE {}) \cup
+  (IF enc # "plain" /\ fsize > 0 /\ HasPath(name) THEN {"pathkey"} ELSE {})
+  \cup (IF enc # "plain" /\ fsize > 0 /\ (single => csize % 4 # 0) THEN {"tail"} ELSE {})
+  \cup (IF side = "w" /\ ~single /\ ~cflag /\ fsize > 0 THEN {"rawtable"} ELSE {})
+  \cup (IF side = "r" /\ ~single /\ ~cflag /\ enc # "plain" /\ nsec > 1 THEN {"oneblock"} ELSE {})
+
 ---------------------------------------------------------------------------
 (*                               WRITER                                    *)
 (* An abstract file to be written:                                         *)
-(*   [name: bytes, fsize, enc: "plain"|"enc"|"fix", single: BOOLEAN,       *)
+(*   [name: bytes, locale (0 = neutral), crc: BOOLEAN (sector checksums requested),        *)
+(*    fsize, enc: "plain"|"enc"|"fix", single: BOOLEAN,                                   *)
 (*    cflag: BOOLEAN (COMPRESS requested),                                 *)
 (*    sectors: Seq([m: -1|method byte, p: payload bytes])]                 *)
 (* single => one sector covering the file; otherwise ceil(fsize/S) sectors.*)
@@ -308,7 +385,8 @@ FlagsOf(f) ==
   Or32(IF f.cflag THEN F_COMPRESS ELSE WZero,
   Or32(IF f.enc # "plain" THEN F_ENCRYPTED ELSE WZero,
   Or32(IF f.enc = "fix" THEN F_FIXKEY ELSE WZero,
-       IF f.single THEN F_SINGLE ELSE WZero))))
+  Or32(IF f.crc /\ f.cflag /\ ~f.single THEN F_SECTORCRC ELSE WZero,     \* only for sectored COMPRESS files
+       IF f.single THEN F_SINGLE ELSE WZero)))))
 
 \* bytes of one file stored at archive offset pos: [sector offset table] ++ cipher units
 FileImage(f, pos, d) ==
@@ -325,12 +403,18 @@ FileImage(f, pos, d) ==
                ELSE [si \in 1..nsec |-> [u |-> units[si], ko |-> si - 1]]
       stored == [pi \in 1..Len(parts) |->
                    IF encd THEN UnitEncrypt(parts[pi].u, Add32n(key, parts[pi].ko), d) ELSE parts[pi].u]
-      offs == FoldLeft(LAMBDA acc, si : Append(acc, acc[Len(acc)] + Len(units[si])),
-                       <<4 * (nsec + 1)>>, [si \in 1..nsec |-> si])
-      offw == [oi \in 1..(nsec + 1) |-> WFromNat(offs[oi])]
+      \* standard sector checksums: one more table entry, one more (raw, never encrypted) sector of ADLER32
+      \* values of the sectors as stored before encryption
+      crcs == hasTable /\ f.crc /\ f.cflag
+      ntab == IF crcs THEN nsec + 2 ELSE nsec + 1
+      offd == FoldLeft(LAMBDA acc, si : Append(acc, acc[Len(acc)] + Len(units[si])),
+                       <<4 * ntab>>, [si \in 1..nsec |-> si])
+      offs == IF crcs THEN Append(offd, offd[nsec + 1] + 4 * nsec) ELSE offd
+      offw == [oi \in 1..ntab |-> WFromNat(offs[oi])]
       table == IF ~hasTable THEN <<>>
                ELSE BytesOf(IF encd THEN StdEncWords(offw, Sub32(key, <<0, 1>>)) ELSE offw)
-  IN  table \o ConcatAll(stored)
+      crcsec == IF crcs THEN ConcatAll([si \in 1..nsec |-> LE32(Adler32(units[si]))]) ELSE <<>>
+  IN  table \o ConcatAll(stored) \o crcsec
 
 EmptyHashEntry   == [ha |-> HASH_EMPTY, hb |-> HASH_EMPTY, locale |-> 65535, platform |-> 65535, blk |-> HASH_EMPTY]
 DeletedHashEntry == [ha |-> HASH_EMPTY, hb |-> HASH_EMPTY, locale |-> 65535, platform |-> 65535, blk |-> HASH_DELETED]
@@ -338,12 +422,12 @@ HomeSlot(name, cnt) == NatOf(And32(HashString(name, TABLE_OFFSET), WFromNat(cnt 
 
 \* insert by linear probing into the first never-used slot (deleted slots are left alone, so that
 \* readers have to probe across them)
-HashInsert(ht, cnt, name, blk) ==
+HashInsert(ht, cnt, name, blk, locale) ==
   LET home == HomeSlot(name, cnt)
       free == {pk \in 0..(cnt - 1) : ht[(home + pk) % cnt].blk = HASH_EMPTY}
       pk0  == CHOOSE pk \in free : \A p2 \in free : pk <= p2
   IN  [ht EXCEPT ![(home + pk0) % cnt] =
-         [ha |-> HashString(name, NAME_A), hb |-> HashString(name, NAME_B), locale |-> 0, platform |-> 0,
+         [ha |-> HashString(name, NAME_A), hb |-> HashString(name, NAME_B), locale |-> locale, platform |-> 0,
           blk |-> WFromNat(blk)]]
 
 HashEntryBytes(en) == LE32(en.ha) \o LE32(en.hb) \o LE16(en.locale) \o LE16(en.platform) \o LE32(en.blk)
@@ -365,7 +449,7 @@ WAppendFile(st, f, cfg, d) ==
       be   == [pos |-> WFromNat(pos), csize |-> WFromNat(Len(data)), fsize |-> WFromNat(f.fsize), flags |-> FlagsOf(f)]
   IN  [st EXCEPT !.img = st.img \o data,
                  !.blocks = Append(st.blocks, be),
-                 !.hash = HashInsert(st.hash, cfg.hcount, f.name, Len(st.blocks))]
+                 !.hash = HashInsert(st.hash, cfg.hcount, f.name, Len(st.blocks), f.locale)]
 
 WEmitHash(st, cfg) ==
   [st EXCEPT !.htpos = Len(st.img),
@@ -391,11 +475,13 @@ WPatchHeader(st, cfg) ==
 
 WFinish(st, cfg) == cfg.prefix \o st.img
 
-\* RefWrite = the fold of the steps
-RefWrite(files, cfg, d) ==
-  LET s1 == FoldLeft(LAMBDA st, f : WAppendFile(st, f, cfg, d), WBegin(files, cfg), files)
+\* RefWrite = the fold of the steps.  RefWriteD: one dialect per file (dials[i] for files[i]).
+RefWriteD(files, cfg, dials) ==
+  LET s1 == FoldLeft(LAMBDA st, fi : WAppendFile(st, files[fi], cfg, dials[fi]), WBegin(files, cfg),
+                     [fi \in 1..Len(files) |-> fi])
       s2 == WEmitHiBlock(WEmitBlock(WEmitHash(s1, cfg), cfg), cfg)
   IN  WFinish(WPatchHeader(s2, cfg), cfg)
+RefWrite(files, cfg, d) == RefWriteD(files, cfg, [fi \in 1..Len(files) |-> d])
 
 \* what RefRead must return for a written file (sector list with expected lengths)
 ExpectSectors(f, ssize) ==
